@@ -380,6 +380,82 @@ func G6SameKeyActionWriters(p *sut.Proc) *Result {
 	})
 }
 
+// G5: the component analogue of G6. Any member may add, update and delete the
+// component of any entity; the store is written first and the relay is sent
+// afterwards. P1's add is held between the two (at EntityComponentStore.Notify),
+// P2 deletes the same (type, entity) - stored and relayed - then P1 is
+// released: a subscribed witness receives "delete" then "add" and keeps a
+// component the server no longer has.
+func G5SameKeyComponentWriters(p *sut.Proc) *Result {
+	return run("G5 same-key component writers", func(r *Result) {
+		const class = "same-key-writers(component)"
+		p1 := scen.MustDial(p, "vod")
+		defer p1.Close()
+		_, _, err := p1.Join("")
+		must(err)
+		p2 := scen.MustDial(p, "vod")
+		defer p2.Close()
+		_, _, err = p2.Join(p1.SID)
+		must(err)
+		w := scen.MustDial(p, "vod")
+		defer w.Close()
+		_, _, err = w.Join(p1.SID)
+		must(err)
+		e, err := p1.AddEntity(true, 1)
+		must(err)
+		t, err := p1.AddType("g5-type")
+		must(err)
+		_, err = w.Subscribe(t)
+		must(err)
+		p1.Barrier()
+		p2.Barrier()
+		w.Barrier()
+		rt(p, "op=hold&site=models.EntityComponentStore.Notify&max=1")
+		defer p.RT("op=reset")
+		must(p1.Send(&hagallpb.EntityComponentAddRequest{Type: d.TCompAddReq, Timestamp: d.NewTag(), RequestId: p1.NextReqID(), EntityComponentTypeId: t, EntityId: e, Data: []byte("first-writer")}))
+		if !gateWait(p, "models.EntityComponentStore.Notify", 1) {
+			r.Inconclusive = "G5: the first writer never reached EntityComponentStore.Notify"
+			return
+		}
+		r.GateReached = true
+		a, err := p2.DelComp(t, e)
+		must(err)
+		if a == nil || a.Type == d.TError {
+			r.Inconclusive = fmt.Sprint("G5: the second writer's delete was refused: ", a)
+			return
+		}
+		rt(p, "op=release&site=models.EntityComponentStore.Notify")
+		p1.Barrier()
+		win, err := w.Barrier()
+		must(err)
+		var order []string
+		has := false
+		for _, ev := range win {
+			switch ev.M.(type) {
+			case *hagallpb.EntityComponentAddBroadcast:
+				order = append(order, "add")
+				has = true
+			case *hagallpb.EntityComponentDeleteBroadcast:
+				order = append(order, "delete")
+				has = false
+			}
+		}
+		r.Signature = fmt.Sprintf("store(add) < store(delete) < relay(delete) < relay(add): witness saw %v", order)
+		snap, err := scen.Probe(p, p1.SID, "vod")
+		must(err)
+		server := false
+		for _, cc := range snap.State.GetEntityComponents() {
+			if cc.EntityComponentTypeId == t && cc.EntityId == e {
+				server = true
+			}
+		}
+		if len(order) == 2 && has != server {
+			r.Findings = append(r.Findings, &check.Finding{Props: []string{"C01", "C12"}, Clause: "view/diverged-after-concurrent-block", Trigger: class, Engine: "E2 gated interleaving",
+				Detail: fmt.Sprintf("an accepted component add and an accepted delete of the same (type, entity) from different connections: the subscribed witness received the relays in the order %v, so its view ends with component present=%v, while the server (state handed to a probe) has present=%v", order, has, server)})
+		}
+	})
+}
+
 // G4: the creator of a session is held inside its first module's Init, just
 // before it registers the module state it created (Session.SetModuleState);
 // its join response has already been sent, so a second client can join by id
